@@ -49,8 +49,8 @@ def gen_case(rng, cid, ev="FacePad", nmax=3, maxelems=260, vector=None, force_bo
         g = face_grid(rng, N, nfaces, table, third=third, nextra=rng.choice([0, 0, 1]))
         axnames = [a["name"] for a in g["axes"]]
         g["ctor"] = {"periodic": {"k": "b", "v": rng.random() < 0.3},
-                     "boundary": gen.rand_tagged(rng, axnames, gen.RULES, total_only=True),
-                     "fill_value": gen.rand_tagged(rng, axnames, [-3, 0, 2, 7], total_only=True), "default_shifts": NONE}
+                     "boundary": gen.rand_tagged(rng, axnames, gen.RULES, partial=True),
+                     "fill_value": gen.rand_tagged(rng, axnames, [-3, 0, 2, 7], partial=True), "default_shifts": NONE}
         halves = False
         isvec = rng.random() < 0.4 if vector is None else vector
         if isvec:
